@@ -407,17 +407,21 @@ def install(I):
         return v
 
     @ext("max")
-    def _max(ctx, a):
-        ctx.assumed_ext.add("numpy.max(a): an element of a that is >= every element (a non-empty)")
+    def _max(ctx, a, initial=None):
+        ctx.assumed_ext.add("numpy.max(a): an element of a that is >= every element (a non-empty); with initial=v: v or such an element, "
+                            "whichever is larger (v for an empty a)")
         a = as_narr(I, ctx, a)
         m = ctx.fresh_int("npmax") if a.dtype in ("int", "uint8") else ctx.fresh_real("npmax")
         i = z3.Int("i_max")
         conv = B.zint if a.dtype in ("int", "uint8") else B.zreal
-        if ctx.branch(zn(a) <= 0):
+        if initial is None and ctx.branch(zn(a) <= 0):
             raise I.raise_exc("ValueError")
         ctx.assume(z3.ForAll([i], z3.Implies(z3.And(i >= 0, i < zn(a)), conv(a.elem(i)) <= m)))
         w = ctx.fresh_int("maxwit")
-        ctx.assume(z3.And(w >= 0, w < zn(a), conv(a.elem(w)) == m))
+        if initial is None:
+            ctx.assume(z3.And(w >= 0, w < zn(a), conv(a.elem(w)) == m))
+        else:
+            ctx.assume(z3.And(conv(initial) <= m, z3.Or(conv(initial) == m, z3.And(w >= 0, w < zn(a), conv(a.elem(w)) == m))))
         return Sym(m)
 
     def _truthy(v):
